@@ -166,6 +166,7 @@ func c18() {
 		}
 	}
 	r.Count("cycles", cycles)
+	l2Exec(r)
 	r.Count("bit_checks", bitChecks)
 	r.Assume("simulated endpoints: the non-preserving side's snapshot always reports executable=false; transitions are applied ideally; the bit is demanded unchanged where the preserving side's content is unmodified since the last synchronization or equals the incoming content")
 	r.Finish("random histories (content edits on either side, chmods on the preserving side, deletes/re-creates) of 3..20 simulated cycles under every mode and both role assignments; each cycle runs the real PropagateExecutability and Reconcile; distinct = (bit, unmodified?, same-content?, role, mode) combinations at which the preserving side's bit was checked", 8)
